@@ -17,14 +17,27 @@ theorem step_world (w : World) (c : Call) :
   | createStart name =>
     simp only [World.step]; split; · exact Or.inl (SameReal.rfl' _)
     split <;> exact Or.inl (SameReal.rfl' _)
-  | createGetSeq name =>
+  | createGetSeq name k =>
     simp only [World.step]; split <;> exact Or.inl (SameReal.rfl' _)
-  | createSetSeq name cur ver =>
+  | createSetSeq name cur ver k =>
     simp only [World.step]
     right; refine ⟨⟨.set, sequenceKey, .seq (cur + 1), ver⟩, ?_⟩
     split
     · rename_i heq; rw [heq]; exact ⟨rfl, rfl, rfl⟩
     · rename_i heq; rw [heq]; exact ⟨rfl, rfl, rfl⟩
+  | restoreStart name =>
+    simp only [World.step]; split; · exact Or.inl (SameReal.rfl' _)
+    split <;> exact Or.inl (SameReal.rfl' _)
+  | restoreMark name tbl tver id =>
+    simp only [World.step]
+    right; refine ⟨⟨.set, tableKey name, .table ⟨name, tbl.clusterID, id⟩, tver⟩, ?_⟩
+    split <;> (rename_i heq; rw [heq]; exact ⟨rfl, rfl, rfl⟩)
+  | restoreReread name id =>
+    simp only [World.step]; split <;> exact Or.inl (SameReal.rfl' _)
+  | restoreSwitch name id tbl ver =>
+    simp only [World.step]
+    right; refine ⟨⟨.set, tableKey name, .table ⟨tbl.name, id, 0⟩, ver⟩, ?_⟩
+    split <;> (rename_i heq; rw [heq]; exact ⟨rfl, rfl, rfl⟩)
   | createSetRec name id =>
     simp only [World.step]
     right; refine ⟨⟨.set, tableKey name, .table ⟨name, id, 0⟩, 0⟩, ?_⟩
@@ -152,6 +165,9 @@ theorem leaseOK_tick (w : World) (d : Nat) (c : Call) (h : LeaseOK w c) :
     · right; show l.expires < w.now + (d : Int); omega
   | _ => trivial
 
+theorem leaseOK_afterSeq (w : World) (name : String) (id : Nat) (k : Purpose) : LeaseOK w (afterSeq name id k) := by
+  cases k <;> trivial
+
 /-- the state a call moves to is justified -/
 theorem leaseOK_step_self (w : World) (hw : WInv w) (c : Call) (h : LeaseOK w c) :
     LeaseOK (w.step c).1 (w.step c).2 := by
@@ -174,9 +190,17 @@ theorem leaseOK_step_self (w : World) (hw : WInv w) (c : Call) (h : LeaseOK w c)
   | leaseSet node name dur rv => simp only [World.step]; split <;> trivial
   | createStart name => simp only [World.step]; split; · trivial
                         split <;> trivial
-  | createGetSeq name => simp only [World.step]; split <;> trivial
-  | createSetSeq name cur ver => simp only [World.step]; split <;> trivial
+  | createGetSeq name k => simp only [World.step]; split <;> trivial
+  | createSetSeq name cur ver k =>
+    simp only [World.step]; split
+    · exact leaseOK_afterSeq _ _ _ _
+    · trivial
   | createSetRec name id => simp only [World.step]; split <;> trivial
+  | restoreStart name => simp only [World.step]; split; · trivial
+                         split <;> trivial
+  | restoreMark name tbl tver id => simp only [World.step]; split <;> trivial
+  | restoreReread name id => simp only [World.step]; split <;> trivial
+  | restoreSwitch name id tbl ver => simp only [World.step]; split <;> trivial
   | deleteStart name => simp only [World.step]; split; · trivial
                         split <;> trivial
   | deleteDel name ver => simp only [World.step]; split <;> trivial
